@@ -22,7 +22,6 @@ open YaraModel.Gen.Limits
 theorem gen_consistent :
     unparsedItems = [] ∧ negotiationParsed = true ∧ disabledTestParsed = true ∧
     reMaxSplitId ≤ reSplitIdTypeMax ∧ maxAtomLength ≤ 255 ∧ 1 ≤ maxAtomLength ∧
-    slowStringMatches < maxStringMatches ∧
     vmMemSize = maxLoopNesting * (maxLoopVars + internalLoopVars) ∧
     1 ≤ maxLoopNesting ∧ 1 ≤ maxIncludeDepth ∧ 1 ≤ maxStringMatches ∧ 1 ≤ reMaxSplitId ∧ 1 ≤ reMaxFibers ∧
     1 ≤ vmTimeoutCycle ∧ 1 ≤ blockTimeoutStride ∧ reMaxRange ≤ 32767 ∧
